@@ -254,13 +254,18 @@ def run_tlc(module: str, cfg: str, *, workers: int | str = "auto", env: Optional
     if env:
         e.update(env)
     t0 = time.time()
+    # TLC's output goes to a FILE, not to a pipe: a worker process forked by a check while TLC runs in another thread
+    # would inherit the pipe and keep it open, and subprocess.run would wait for its end of file for ever
+    outf = os.path.join(meta, "tlc.out")
     try:
-        pr = subprocess.run(cmd, cwd=SPECS, env=e, capture_output=True, text=True, timeout=timeout)
+        with open(outf, "w") as fo:
+            pr = subprocess.run(cmd, cwd=SPECS, env=e, stdout=fo, stderr=subprocess.STDOUT, stdin=subprocess.DEVNULL,
+                                text=True, timeout=timeout)
+        out = open(outf, errors="replace").read()
     except subprocess.TimeoutExpired as ex:
         raise MachineryError(f"TLC timeout after {timeout}s: {' '.join(cmd)}") from ex
     finally:
         shutil.rmtree(meta, ignore_errors=True)
-    out = pr.stdout + pr.stderr
     res = TLCResult(module=module, cfg=cfg, out=out, cmd=" ".join(cmd), wall_s=time.time() - t0)
     m = None
     for m in re.finditer(r"(\d+) states generated, (\d+) distinct states found", out):
